@@ -128,7 +128,16 @@ let () =
          let v = match decide f with CReject r -> "reject:" ^ string_of_int (int_of_nat r) | CAccept MAtlas -> "accept:atlas" | CAccept MFile -> "accept:file" | CAccept MStdin -> "accept:stdin" in
          let e = String.concat "," (List.map (function ECreateOutput -> "out" | EKeyFile -> "key" | ENetwork -> "net" | EReadInput -> "read") (effects f)) in
          out_s (v ^ " " ^ (if e = "" then "-" else e))
-       | _ -> out_s "BADREQ");
+       | ["CLIRAW"; v] ->
+         let sv i = (match v.[i] with 'a' -> SAbsent | 'e' -> SEmpty | _ -> SGiven) in
+         let dv i = (match v.[i] with 'a' -> DAbsent | 'z' -> DZero | 'n' -> DNeg | _ -> DPos) in
+         let b i = v.[i] = '1' in
+         let r = { r_file = sv 0; r_stdin = b 1; r_out = sv 2; r_encrypt = b 3; r_regexp = sv 4; r_fieldnames = sv 5;
+                   r_proj = sv 6; r_cluster = sv 7; r_pub = sv 8; r_priv = sv 9; r_start = dv 10; r_end = dv 11; r_env = b 12 } in
+         let vd = match decide_raw r with CReject n -> "reject:" ^ string_of_int (int_of_nat n) | CAccept MAtlas -> "accept:atlas" | CAccept MFile -> "accept:file" | CAccept MStdin -> "accept:stdin" in
+         let e = String.concat "," (List.map (function ECreateOutput -> "out" | EKeyFile -> "key" | ENetwork -> "net" | EReadInput -> "read") (effects_raw r)) in
+         out_s (vd ^ " " ^ (if e = "" then "-" else e))
+      | _ -> out_s "BADREQ");
       if !remiss then out_s " TABLEMISS";
       out_nl ()
     done
